@@ -5,6 +5,7 @@
 From NC Require Import Model.Base Model.XTree Model.XmlHelpers Spec.XmlHelpersSpec Proofs.XmlHelpersProofs Proofs.XmlReplaceProofs Proofs.XmlCtorProofs.
 From NC Require Import Model.XmlHistory Proofs.XmlHistoryProofs.
 From NC Require Import Model.XmlSession Spec.XmlSessionSpec Proofs.XmlSessionProofs.
+From NC Require Import Model.XmlReparse Spec.XmlReparseSpec Proofs.XmlReparseProofs.
 
 (* to_xml: whichever branch runs - the serialiser declared the document itself, or it did not and
    the declaration is prepended - the result is ONE declaration followed by the serialised element,
@@ -224,6 +225,57 @@ Theorem C17_session_trace : forall ops st st',
 Proof. exact c17_session_trace. Qed.
 Print Assumptions C17_session_trace.
 
+(* ---------------- a process that parses texts and edits what it got back (Model/XmlReparse.v) ----------------
+   The parser (libxml2) and the serialiser are oracles: every theorem holds for every function of the parser's options
+   and the octets. *)
+
+(* whatever the process did before - parsed this very text (with the same parser), renamed / extended / emptied the
+   tree it got, serialised, parsed other texts - the tree a parse hands out is the parser's reading of the text, as a
+   new last tree *)
+Theorem C17_reparse_fresh : forall parser ser ops ts h s ts' t,
+  rrun parser ser ts (ops ++ [RParse h s]) = Some ts' -> parser h s = Some t ->
+  exists ts1, rrun parser ser ts ops = Some ts1 /\ ts' = ts1 ++ [t] /\ nth_error ts' (length ts1) = Some t.
+Proof. exact c17_reparse_fresh. Qed.
+Print Assumptions C17_reparse_fresh.
+
+(* a call leaves every tree it was not given as it was: a parse touches no tree handed out earlier, an in-place
+   helper / an edit of the caller's touches no other tree (two readings of one text share nothing) *)
+Theorem C17_reparse_step_frame : forall parser ser ts op ts' j,
+  rstep parser ser ts op = Some ts' -> rop_tree op <> Some j -> (j < length ts)%nat ->
+  nth_error ts' j = nth_error ts j.
+Proof. exact c17_reparse_step_frame. Qed.
+Print Assumptions C17_reparse_step_frame.
+
+(* every tree is the reading of ITS text followed by the calls that were given THAT tree, whatever else was parsed
+   or edited before, in between or afterwards *)
+Theorem C17_reparse_independent : forall parser ser ops ts ts' j,
+  rrun parser ser ts ops = Some ts' ->
+  nth_error ts' j = fold_left (estep parser ser) (rown parser j (length ts) ops) (nth_error ts j).
+Proof. exact c17_reparse_independent. Qed.
+Print Assumptions C17_reparse_independent.
+
+Theorem C17_reparse_alone : forall parser ser ops ts' j,
+  rrun parser ser [] ops = Some ts' -> nth_error ts' j = fold_left (estep parser ser) (rown parser j 0 ops) None.
+Proof. exact c17_reparse_alone. Qed.
+Print Assumptions C17_reparse_alone.
+
+(* parse s, do anything to the tree handed out, parse s again: the second tree is the reading of s, the first is
+   what the edits made of it *)
+Theorem C17_reparse_same_text : forall parser ser h s t edits ts',
+  parser h s = Some t ->
+  Forall (fun op => rop_tree op = Some 0%nat) edits ->
+  rrun parser ser [] (RParse h s :: edits ++ [RParse h s]) = Some ts' ->
+  exists t0, ts' = [t0; t] /\ Some t0 = fold_left (estep parser ser) (rown parser 0 1 edits) (Some t).
+Proof. exact c17_reparse_same_text. Qed.
+Print Assumptions C17_reparse_same_text.
+
+(* the trees-after-every-call trace the runner reports is the run *)
+Theorem C17_reparse_trace : forall parser ser ops ts ts',
+  rrun parser ser ts ops = Some ts' ->
+  last (rtrace parser ser ts ops) ts = ts' /\ length (rtrace parser ser ts ops) = length ops.
+Proof. exact c17_reparse_trace. Qed.
+Print Assumptions C17_reparse_trace.
+
 (* ---------------- non-vacuity ---------------- *)
 From Coq Require Import String.
 From NC Require Import Model.Lit.
@@ -346,3 +398,23 @@ Example C17_session_polluted_refuted :
   exists st', srun st [SSub 0 [] (lit "close-session") ADefault []] = Some st' /\
     nth_error (s_trees st') 0 <> fold_left lstep (own 0 1 [] [SSub 0 [] (lit "close-session") ADefault []]) (nth_error (s_trees st) 0).
 Proof. eexists. split; [vm_compute; reflexivity|]. vm_compute. discriminate. Qed.
+
+(* <a xmlns="urn:u"><b/>t</a> parsed with huge_tree, renamed u -> v, given a child in urn:w and an attribute by the
+   caller, then the same text parsed again with huge_tree (and once without): trees 1 and 2 are the document, tree 0
+   is what the caller made of its own copy. *)
+Definition ex_rp_text : bytes := lit "<a xmlns=""urn:u""><b/>t</a>"%string.
+Definition ex_rp_doc : mnode :=
+  ME (Some (lit "urn:u"), [97]) false [(false, lit "urn:u")] [] [ME (Some (lit "urn:u"), [98]) false [] [] []; MT [116]].
+Definition ex_rp_parser := table_parser [(true, ex_rp_text, Some ex_rp_doc); (false, ex_rp_text, Some ex_rp_doc)].
+Definition ex_rp_edited : mnode :=
+  ME (Some (lit "urn:v"), [97]) false [(false, lit "urn:u")] [((None, [107]), [49])]
+     [ME (Some (lit "urn:v"), [98]) false [] [] []; MT [116]; ME (Some (lit "urn:w"), [110]) true [(true, lit "urn:w")] [] []].
+Example C17_ex_reparse :
+  let edits := [RHelper 0 (HReplace [] (Some (lit "urn:u")) (Some (lit "urn:v")));
+                RHelper 0 (HSubEleNs [] [110] (Some (lit "urn:w")) []);
+                RCaller 0 ex_rp_edited] in
+  Forall (fun op => rop_tree op = Some 0%nat) edits /\
+  rrun ex_rp_parser ex_ser [] (RParse true ex_rp_text :: edits ++ [RParse true ex_rp_text; RParse false ex_rp_text; RParse true []]) =
+    Some [ex_rp_edited; ex_rp_doc; ex_rp_doc] /\
+  rown ex_rp_parser 1 0 (RParse true ex_rp_text :: edits ++ [RParse true ex_rp_text]) = [EParse true ex_rp_text].
+Proof. split; [repeat constructor|]. vm_compute. split; reflexivity. Qed.
